@@ -64,3 +64,78 @@ Proof.
     eapply foreign_prefix with (id := 15%nat); try exact ti_sha256; try reflexivity.
     intros q [<-|[]]. exact HP.
 Qed.
+
+Theorem sha512_classified : forall L kdf h pw,
+  (forall bs ns k, kdf T_sha512 bs ns = Some k -> length k = 64%nat) ->
+  class_of (check_sha512 L kdf h pw) = spec_sha512 L kdf h pw.
+Proof.
+  intros L kdf h pw Hk. destruct (has_prefix p_sha512 h) eqn:HP.
+  - apply has_prefix_spec in HP. destruct HP as [body ->].
+    unfold check_sha512, with_layout, unmarshal_top. rewrite parse_sha512, ti_sha512. unfold TI_sha512.
+    cbn [bind]. unfold body_tree.
+    unfold spec_sha512, recog_sha512, recog_sha2. rewrite has_prefix_app. change (skipn 3 (p_sha512 ++ body)) with body. cbv zeta.
+    pose proof (sc_plain body [] 3 3) as HF. unfold plain_frags.
+    destruct (sc [] 3 3 body None) as [|[[p1 t1]|g1] [|[[p2 t2]|g2] [|[[p3 t3]|g3] [|[[p4 t4]|g4] r]]]];
+      split_frags HF body; eval_prefix.
+    all: unfold salt_sum_ok, slen, k_rounds, num0, sha2_rounds; rewrite ?in_alpha_fi.
+    all: crunch. all: try reflexivity. all: try uint_alpha.
+    all: arr_fix; apply finish_class; intros key Hkey; eapply le64_len; [eapply key_sha2_len; eauto | reflexivity].
+  - unfold spec_sha512, recog_sha512, recog_sha2. rewrite HP. unfold check_sha512.
+    eapply foreign_prefix with (id := 16%nat); try exact ti_sha512; try reflexivity.
+    intros q [<-|[]]. exact HP.
+Qed.
+
+(* ---------------------------------------------------------------- sha1 *)
+Definition TI_sha1 : tinfo := Eval vm_compute in ti_or_dummy (type_info m_layout_sha1).
+Lemma ti_sha1 : type_info m_layout_sha1 = Ok TI_sha1.
+Proof. vm_compute. reflexivity. Qed.
+Lemma parse_sha1 body : parse (p_sha1 ++ body) = POk (body_tree (Some p_sha1) 6 body).
+Proof. rewrite parse_eq. reflexivity. Qed.
+
+Theorem sha1_classified : forall L kdf rr h pw,
+  (forall bs ns k, kdf T_sha1 bs ns = Some k -> length k = 21%nat) ->
+  class_of (check_sha1 L kdf rr h pw) = spec_sha1 L kdf rr h pw.
+Proof.
+  intros L kdf rr h pw Hk. destruct (has_prefix p_sha1 h) eqn:HP.
+  - apply has_prefix_spec in HP. destruct HP as [body ->].
+    unfold check_sha1, with_layout, unmarshal_top. rewrite parse_sha1, ti_sha1. unfold TI_sha1.
+    cbn [bind]. unfold body_tree.
+    unfold spec_sha1, recog_sha1. rewrite has_prefix_app. change (skipn 6 (p_sha1 ++ body)) with body. cbv zeta.
+    pose proof (sc_plain body [] 6 6) as HF. unfold plain_frags.
+    destruct (sc [] 6 6 body None) as [|[[p1 t1]|g1] [|[[p2 t2]|g2] [|[[p3 t3]|g3] [|[[p4 t4]|g4] r]]]];
+      split_frags HF body; eval_prefix.
+    all: unfold salt_sum_ok, slen, num0; rewrite ?in_alpha_fi.
+    all: crunch. all: try reflexivity. all: try uint_alpha.
+    all: arr_fix; apply finish_class; intros key Hkey; eapply le64_len; [eapply key_sha1_len; eauto | reflexivity].
+  - unfold spec_sha1, recog_sha1. rewrite HP. unfold check_sha1.
+    eapply foreign_prefix with (id := 14%nat); try exact ti_sha1; try reflexivity.
+    intros q [<-|[]]. exact HP.
+Qed.
+
+(* ---------------------------------------------------------------- nthash *)
+Definition TI_nthash : tinfo := Eval vm_compute in ti_or_dummy (type_info m_layout_nthash).
+Lemma ti_nthash : type_info m_layout_nthash = Ok TI_nthash.
+Proof. vm_compute. reflexivity. Qed.
+Lemma parse_nthash body : parse (p_nthash ++ body) = POk (body_tree (Some p_nthash) 3 body).
+Proof. rewrite parse_eq. reflexivity. Qed.
+
+Theorem nthash_classified : forall L kdf nt h pw,
+  (forall bs ns k, kdf T_nthash bs ns = Some k -> length k = 16%nat) ->
+  class_of (check_nthash L kdf nt h pw) = spec_nthash L kdf nt h pw.
+Proof.
+  intros L kdf nt h pw Hk. destruct (has_prefix p_nthash h) eqn:HP.
+  - apply has_prefix_spec in HP. destruct HP as [body ->].
+    unfold check_nthash, with_layout, unmarshal_top. rewrite parse_nthash, ti_nthash. unfold TI_nthash.
+    cbn [bind]. unfold body_tree.
+    unfold spec_nthash, recog_nthash. rewrite has_prefix_app. change (skipn 3 (p_nthash ++ body)) with body. cbv zeta.
+    pose proof (sc_plain body [] 3 3) as HF. unfold plain_frags.
+    destruct (sc [] 3 3 body None) as [|[[p1 t1]|g1] [|[[p2 t2]|g2] [|[[p3 t3]|g3] r]]];
+      split_frags HF body; eval_prefix.
+    all: unfold slen; rewrite ?in_alpha_fi.
+    all: try (destruct t1 as [|c1 t1]).
+    all: crunch. all: try reflexivity.
+    all: arr_fix; apply finish_class; intros key Hkey; rewrite hex_len; erewrite key_nthash_len; eauto.
+  - unfold spec_nthash, recog_nthash. rewrite HP. unfold check_nthash.
+    eapply foreign_prefix with (id := 13%nat); try exact ti_nthash; try reflexivity.
+    intros q [<-|[]]. exact HP.
+Qed.
